@@ -90,6 +90,8 @@ type k4interp struct {
 	frameID int
 	inline  func(f *ssa.Function) bool
 	mem     map[string]k4val // symbolic memory: address key -> value (overrides the model)
+	// calls: every non-inlined call evaluated, in order (keys)
+	calls []string
 	// opaqueCall (optional) names calls of opaque function values by their arguments
 	opaqueCall func(args []k4val) (string, bool)
 	// stores performed on non-local memory, in order (for rules that inspect effects)
@@ -477,8 +479,13 @@ func (it *k4interp) opaque(fr *k4frame, v ssa.Value) (k4val, error) {
 	if !ok {
 		return k4val{}, fmt.Errorf("cannot name value %s (%T)", v.Name(), v)
 	}
+	if _, isCall := v.(*ssa.Call); isCall {
+		it.calls = append(it.calls, k)
+	}
 	return it.lookup(k, v.Type())
 }
+
+var nil0 types.Type = types.Typ[types.Float64]
 
 func (it *k4interp) eval1(fr *k4frame, v ssa.Value) (k4val, error) {
 	switch x := v.(type) {
